@@ -33,7 +33,7 @@ CHECKS["C12"] = dict(
     quick=dict(workers=16, cases=400, maxsize=24,
                env={"VF_EXHAUSTIVE": "1", "VF_EXH_APIS": "2"}),
     thorough=dict(workers=16, cases=8000, maxsize=24,
-                  env={"VF_EXHAUSTIVE": "1"}),
+                  env={"VF_EXHAUSTIVE": "1"}, fuzz=dict(workers=8, seconds=120, max_len=2048)),
 )
 
 DP_SOURCES = ["props/datapath.cc", "shim/shim.c", "pki/pki.cc"]
@@ -63,7 +63,7 @@ CHECKS["C01"] = dict(
                  "(C03 covers the latter)",
                  "blocking-mode sides are exercised by the C04 harness"],
     quick=dict(workers=16, cases=250, maxsize=60),
-    thorough=dict(workers=16, cases=5000, maxsize=120),
+    thorough=dict(workers=16, cases=5000, maxsize=120, fuzz=dict(workers=8, seconds=120)),
 )
 
 CHECKS["C17"] = dict(
@@ -84,7 +84,7 @@ CHECKS["C17"] = dict(
     assumptions=["cross-transport identity is checked through the common ledger: every transport "
                  "must equal the same transport-independent expected values"],
     quick=dict(workers=16, cases=200, maxsize=60),
-    thorough=dict(workers=16, cases=4000, maxsize=120),
+    thorough=dict(workers=16, cases=4000, maxsize=120, fuzz=dict(workers=8, seconds=120)),
 )
 
 CHECKS["C02"] = dict(
@@ -103,7 +103,7 @@ CHECKS["C02"] = dict(
           "refused send or split I/O)."),
     assumptions=["zero-length sends and capacity 0 are outside the domain"],
     quick=dict(workers=16, cases=200, maxsize=60),
-    thorough=dict(workers=16, cases=4000, maxsize=120),
+    thorough=dict(workers=16, cases=4000, maxsize=120, fuzz=dict(workers=8, seconds=120)),
 )
 
 CHECKS["C03"] = dict(
@@ -126,7 +126,7 @@ CHECKS["C03"] = dict(
     assumptions=["at most one endpoint of a pair is blocking at a time (each socket is independent "
                  "inside the library)"],
     quick=dict(workers=16, cases=200, maxsize=60),
-    thorough=dict(workers=16, cases=4000, maxsize=120),
+    thorough=dict(workers=16, cases=4000, maxsize=120, fuzz=dict(workers=8, seconds=120)),
 )
 
 CHECKS["C19"] = dict(
@@ -149,7 +149,7 @@ CHECKS["C19"] = dict(
           "grammar rejects. Distinct = FNV-1a of the plan."),
     assumptions=["attr_path functions are internal; linked directly like the repository's own unit tests do"],
     quick=dict(workers=16, cases=400, maxsize=80),
-    thorough=dict(workers=16, cases=12000, maxsize=80),
+    thorough=dict(workers=16, cases=12000, maxsize=80, fuzz=dict(workers=8, seconds=120)),
 )
 
 CHECKS["C10"] = dict(
@@ -175,7 +175,7 @@ CHECKS["C10"] = dict(
     assumptions=["xcm.service written after creation returning 0 (no-op) is not judged here (see "
                  "DESIGN.md section 6)"],
     quick=dict(workers=16, cases=150, maxsize=60),
-    thorough=dict(workers=16, cases=4000, maxsize=60),
+    thorough=dict(workers=16, cases=4000, maxsize=60, fuzz=dict(workers=8, seconds=120)),
 )
 
 CHECKS["C07"] = dict(
@@ -203,7 +203,7 @@ CHECKS["C07"] = dict(
                  "for TLS garbage shorter than a record the connection may legitimately stay in "
                  "EAGAIN; only 'never usable, never delivers' is demanded there"],
     quick=dict(workers=16, cases=200, maxsize=80),
-    thorough=dict(workers=16, cases=6000, maxsize=80),
+    thorough=dict(workers=16, cases=6000, maxsize=80, fuzz=dict(workers=8, seconds=120)),
 )
 
 CHECKS["C06"] = dict(
@@ -239,7 +239,7 @@ CHECKS["C06"] = dict(
     assumptions=["non-blocking endpoints except in mode C",
                  "TLS peer vanishing without close_notify may be reported as EPROTO, ECONNRESET, EPIPE or close"],
     quick=dict(workers=16, cases=100, maxsize=24, env={"VF_C06_CAP": "40"}),
-    thorough=dict(workers=16, cases=1200, maxsize=24, env={"VF_C06_CAP": "400"}),
+    thorough=dict(workers=16, cases=1200, maxsize=24, env={"VF_C06_CAP": "400"}, fuzz=dict(workers=8, seconds=120)),
 )
 
 EV_SOURCES = ["props/evloop.cc", "shim/shim.c", "pki/pki.cc", "stubs/ares_stub.c"]
@@ -341,7 +341,7 @@ CHECKS["C13"] = dict(
     assumptions=["only ::1 exists as IPv6 loopback address, so all IPv6 entries of an answer share one role per case",
                  "with xcm.local_addr the answer is IPv4-only (the local address must be bindable for every attempt)"],
     quick=dict(workers=16, cases=150, maxsize=44),
-    thorough=dict(workers=16, cases=4000, maxsize=44),
+    thorough=dict(workers=16, cases=4000, maxsize=44, fuzz=dict(workers=8, seconds=120)),
 )
 
 CHECKS["C11"] = dict(
@@ -367,7 +367,7 @@ CHECKS["C11"] = dict(
     assumptions=["creation-only attributes are those the manual marks 'writable only at socket creation' / 'at the "
                  "time of the xcm_connect_a() call'"],
     quick=dict(workers=16, cases=600, maxsize=40),
-    thorough=dict(workers=16, cases=20000, maxsize=40),
+    thorough=dict(workers=16, cases=20000, maxsize=40, fuzz=dict(workers=8, seconds=120)),
 )
 
 CHECKS["C08"] = dict(
@@ -456,7 +456,7 @@ CHECKS["C14"] = dict(
           "disconnect with replies outstanding, or an owner with at least 60 attributes or a value longer than 512 bytes."),
     assumptions=["the owner application keeps calling its sockets (that is what serves the control interface)"],
     quick=dict(workers=16, cases=60, maxsize=60),
-    thorough=dict(workers=16, cases=3000, maxsize=60),
+    thorough=dict(workers=16, cases=3000, maxsize=60, fuzz=dict(workers=8, seconds=120)),
 )
 
 CHECKS["C09"] = dict(
@@ -482,7 +482,7 @@ CHECKS["C09"] = dict(
           "must be refused with EINVAL at creation."),
     assumptions=["tls.client is left at its default (the connecting side is the TLS client)"],
     quick=dict(workers=16, cases=150, maxsize=40),
-    thorough=dict(workers=16, cases=8000, maxsize=40),
+    thorough=dict(workers=16, cases=8000, maxsize=40, fuzz=dict(workers=8, seconds=120)),
 )
 
 CHECKS["C18"] = dict(
@@ -526,7 +526,7 @@ CHECKS["C18"] = dict(
                  "xcm.h and xcm:tls_detect_changes_to_cert_files support",
                  "root with CAP_SYS_ADMIN and iproute2 for the namespace steps (the pinned suite needs the same)"],
     quick=dict(workers=16, cases=60, maxsize=40),
-    thorough=dict(workers=16, cases=3000, maxsize=40),
+    thorough=dict(workers=16, cases=3000, maxsize=40, fuzz=dict(workers=8, seconds=120)),
 )
 
 CHECKS["C15"] = dict(
